@@ -4,7 +4,8 @@ access inventory + stress under the race detector."""
 COMPONENTS = {
     "race": {
         "coq_run_module": "Race.LocksetRun",
-        "accessors": {"internal/actor/xv_race_verif.go": "acc/actor/xv_race_verif.go"},
+        "accessors": {"internal/actor/xv_race_verif.go": "acc/actor/xv_race_verif.go",
+                      "internal/mailbox/xv_race_verif.go": "acc/mailbox/xv_race_verif.go"},
         "race": True,
         "monitors_only": True,
         "timeout": {"quick": 420, "thorough": 1500},
@@ -21,6 +22,9 @@ PROPERTIES = {
     "C10": {
         "components": ["race"],
         "pregen": ["bin/gen_access"],
+        # `stop-failed` (System.Stop returned an error because some actor never terminated) is not a statement of C10
+        # (C06 / C07 / C09 are about termination); it is reported in the evidence info but does not decide this property
+        "monitor_filter": r"^(data-race|harness-race|fatal|panic|hang|tree|table-stale|inventory|child-died)$",
         "rule": ("obligations: the lock-set discipline evaluated by vm_compute on coq/Generated/AccessTable.v, regenerated before the Coq step from the tree "
                  "under test (every read/write site of the 22 shared location classes of DESIGN 4-C10 with function, R/W, atomic?, locks lexically held, "
                  "owner role, publication phase); the bound is the table. Search: a seeded stress of the real system under -race; the seed fixes the "
